@@ -48,7 +48,7 @@ impl Property for C02 {
         ]
     }
     fn pbt(&self, tier: Tier) -> PbtCfg {
-        PbtCfg { cases: tier.pick(120_000, 4_000_000), max_len: tier.pick(1500, 5000), shrink_ms: 120_000 }
+        PbtCfg { cases: tier.pick(120_000, 2_000_000), max_len: tier.pick(1500, 5000), shrink_ms: 120_000 }
     }
     fn required_labels(&self) -> Vec<&'static str> {
         vec!["data_dup", "data_lost", "sliced_sent", "dup_after_consume", "deliver_one", "healed_complete"]
